@@ -40,16 +40,19 @@ type H10 struct {
 	Stream  string `json:"stream,omitempty"`  // all | prefix | close
 }
 
+type D10 struct {
+	Tag  string `json:"tag"`
+	Tag2 string `json:"tag2,omitempty"` // second path of the same option
+	H    H10    `json:"h"`
+}
+
 type CaseC10 struct {
 	Spec       *gkit.Spec `json:"spec"`
 	Input      any        `json:"input"`
 	Paradigm   string     `json:"paradigm"`
 	Global     []H10      `json:"global,omitempty"`
 	PerCall    [][]H10    `json:"percall,omitempty"`    // one WithCallbacks option per entry
-	Designated []struct { // handlers designated to lambda nodes
-		Tag string `json:"tag"`
-		H   H10    `json:"h"`
-	} `json:"designated,omitempty"`
+	Designated []D10 `json:"designated,omitempty"` // handlers designated to lambda nodes (several options may name the same node)
 	Release []int `json:"release,omitempty"` // order in which gated bodies are released
 }
 
@@ -187,18 +190,15 @@ func genC10(t *rapid.T) CaseC10 {
 		c.PerCall = append(c.PerCall, hs)
 	}
 	if len(tags) > 0 {
-		nd := rapid.IntRange(0, 3).Draw(t, "nDesignated")
-		used := map[string]bool{}
+		nd := rapid.IntRange(0, 4).Draw(t, "nDesignated")
 		for i := 0; i < nd; i++ {
-			tag := tags[rapid.IntRange(0, len(tags)-1).Draw(t, "dtag")]
-			if used[tag] {
-				continue
+			d := D10{Tag: tags[rapid.IntRange(0, len(tags)-1).Draw(t, "dtag")], H: H10{Stream: []string{"all", "prefix", "close"}[rapid.IntRange(0, 2).Draw(t, "dstream")]}}
+			if rapid.IntRange(0, 3).Draw(t, "twoPaths") == 0 {
+				if t2 := tags[rapid.IntRange(0, len(tags)-1).Draw(t, "dtag2")]; t2 != d.Tag {
+					d.Tag2 = t2
+				}
 			}
-			used[tag] = true
-			c.Designated = append(c.Designated, struct {
-				Tag string `json:"tag"`
-				H   H10    `json:"h"`
-			}{tag, H10{Stream: []string{"all", "prefix", "close"}[rapid.IntRange(0, 2).Draw(t, "dstream")]}})
+			c.Designated = append(c.Designated, d)
 		}
 	}
 	for i := 0; i < 8; i++ {
@@ -263,11 +263,16 @@ func checkC10(c CaseC10) (*vkit.Failure, vkit.Meta) {
 			}
 			opts = append(opts, compose.WithCallbacks(list...))
 		}
-		designated := map[string]string{} // handler id -> tag
+		designated := map[string]map[string]bool{} // handler id -> tags
 		for i, d := range c.Designated {
 			id := fmt.Sprintf("D%d", i)
-			designated[id] = d.Tag
-			opts = append(opts, compose.WithCallbacks(mkHandler(id, d.H, rec)).DesignateNodeWithPath(compose.NewNodePath(strings.Split(d.Tag, "/")...)))
+			designated[id] = map[string]bool{d.Tag: true}
+			paths := []*compose.NodePath{compose.NewNodePath(strings.Split(d.Tag, "/")...)}
+			if d.Tag2 != "" {
+				designated[id][d.Tag2] = true
+				paths = append(paths, compose.NewNodePath(strings.Split(d.Tag2, "/")...))
+			}
+			opts = append(opts, compose.WithCallbacks(mkHandler(id, d.H, rec)).DesignateNodeWithPath(paths...))
 		}
 		env := gkit.NewEnv("c10")
 		env.MaxRunsPerNode = 400
@@ -431,16 +436,27 @@ func checkC10(c CaseC10) (*vkit.Failure, vkit.Meta) {
 				return f
 			}
 		}
-		for hid, tag := range designated {
-			if f := checkUnits(hid, map[string]bool{tag: true}, true); f != nil {
+		for hid, tagset := range designated {
+			if f := checkUnits(hid, tagset, true); f != nil {
 				return f
 			}
 		}
 		desigParallel := 0
-		for _, tag := range designated {
-			if !strings.Contains(tag, "/") && len(lambdaUnits[tag]) > 0 {
-				desigParallel++
+		sameNode := false
+		seenTag := map[string]bool{}
+		for _, tagset := range designated {
+			for tag := range tagset {
+				if !strings.Contains(tag, "/") && len(lambdaUnits[tag]) > 0 {
+					desigParallel++
+				}
+				if seenTag[tag] && len(lambdaUnits[tag]) > 0 {
+					sameNode = true
+				}
+				seenTag[tag] = true
 			}
+		}
+		if sameNode {
+			m.Labels = append(m.Labels, "several-options-designate-one-node")
 		}
 		if overlapped >= 2 {
 			m.Labels = append(m.Labels, "gated-bodies-overlapped")
